@@ -17,7 +17,7 @@ def triple_record(av, bv, cv, x, dts):
     ra, rb, rc, rax, rbx = ranks(av, bv, cv, sorted(av + [x]), sorted(bv + [x]))
     z = f32_fields(0.0)
     r = dict(a=ra, b=rb, c=rc, ax=rax, bx=rbx, dts=list(dts), ok=False, err='',
-             d={n: z for n in ('ab', 'ba', 'ac', 'ca', 'bc', 'cb', 'wab', 'wba', 'aug', 'pab', 'pac', 'mab', 'mac', 'maa', 'mbc', 'qab', 'qac', 'lab', 'lac', 'lbc', 'lbb', 'saa')})
+             d={n: z for n in ('ab', 'ba', 'ac', 'ca', 'bc', 'cb', 'wab', 'wba', 'aug', 'pab', 'pac', 'mab', 'mac', 'maa', 'mbc', 'qab', 'qac', 'lab', 'lac', 'lbc', 'lbb', 'saa', 'oab', 'oac', 'obc')})
     try:
         A = np.array(av, dtype=dts[0]); B = np.array(bv, dtype=dts[1]); C = np.array(cv, dtype=dts[2])
         Aw = A.astype(WIDER[dts[0]]); Bw = B.astype(WIDER[dts[1]])
@@ -60,8 +60,26 @@ def triple_record(av, bv, cv, x, dts):
             if not (f32_fields(row[3]) == d['mab'] and f32_fields(sq[0][2]) == f32_fields(sq[2][0])
                     and [f32_fields(x) for x in long_row] == [f32_fields(x) for x in want]):
                 d['mab'] = dict(d['mab'], bad='index-selected columns disagree with each other')
+            # results written into CALLER-SUPPLIED arrays of other memory layouts (Fortran order, transposed view, every second column of a wider
+            # array, every second cell of a vector): what the caller's array holds afterwards is the table
+            two = SignatureArray([B.astype(wide), C.astype(wide)], KmerSpec(16, 'ATG'))
+            three = SignatureArray([A.astype(wide), B.astype(wide), C.astype(wide)], KmerSpec(16, 'ATG'))
+            cand = dict(oab=[], oac=[], obc=[])
+            for mk in (lambda n, m: np.full((n, m), -1, dtype=np.float32, order='F'), lambda n, m: np.full((m, n), -1, dtype=np.float32).T,
+                       lambda n, m: np.full((n, 2 * m), -1, dtype=np.float32)[:, ::2], lambda n, m: np.full((2 * n, m), -1, dtype=np.float32)[1::2]):
+                o = mk(2, 2); jaccarddist_matrix([A, B], two, out=o)
+                cand['oab'].append(o[0][0]); cand['oac'].append(o[0][1]); cand['obc'].append(o[1][1])
+                o = mk(3, 3); jaccarddist_pairwise(three, out=o)
+                cand['oab'] += [o[0][1], o[1][0]]; cand['oac'] += [o[0][2], o[2][0]]; cand['obc'] += [o[1][2], o[2][1]]
+                o = mk(2, 4); jaccarddist_matrix([A, B], two, ref_indices=[1, 0, 0, 1], chunksize=3, out=o)
+                cand['oab'] += [o[0][1], o[0][2]]; cand['oac'] += [o[0][0], o[0][3]]; cand['obc'] += [o[1][0], o[1][3]]
+            vec = np.full(4, -1, dtype=np.float32)[::2]; jaccarddist_array(A, two, out=vec)
+            cand['oab'].append(vec[0]); cand['oac'].append(vec[1])
+            for nm, ref in (('oab', 'ab'), ('oac', 'ac'), ('obc', 'bc')):
+                fs = [f32_fields(v) for v in cand[nm]]
+                d[nm] = next((f for f in fs if f != d[ref]), fs[0])
         else:
-            d['mab'] = d['ab']; d['mac'] = d['ac']; d['mbc'] = d['bc']
+            d['mab'] = d['ab']; d['mac'] = d['ac']; d['mbc'] = d['bc']; d['oab'] = d['ab']; d['oac'] = d['ac']; d['obc'] = d['bc']
         # all-pairs form over ONE signature, written into a caller-supplied buffer that held other values: the single cell is d(A, A) = 0
         one = np.full((1, 1), 0.75, dtype=np.float32)
         res1 = jaccarddist_pairwise(SignatureArray([A], KmerSpec(16, 'ATG')), out=one)
